@@ -75,12 +75,8 @@ Theorem C10_empty_noop : forall (E : list N -> list N) (de : bool) (st : state) 
 Proof. exact xks_empty. Qed.
 
 (* non-vacuity: a concrete history (slow in place, fast disjoint with a longer dst, slow disjoint) on the
-   toy block function satisfies the hypotheses, runs without panic, and is not the identity *)
-Definition ex_iv : list N := map N.of_nat (seq 1 16).
-Definition ex_calls : list call :=
-  [ {| c_alias := InPlace;  c_src := map N.of_nat (seq 10 5);  c_dst := [] |};
-    {| c_alias := Disjoint; c_src := map N.of_nat (seq 20 40); c_dst := repeat 9%N 43 |};
-    {| c_alias := Disjoint; c_src := map N.of_nat (seq 70 20); c_dst := repeat 7%N 20 |} ].
+   toy block function (ex_iv, ex_calls in Model/C10.v) satisfies the hypotheses, runs without panic, and
+   is not the identity *)
 Example C10_ex_hyps : length ex_iv = bs /\ Forall call_ok ex_calls /\ Inv (new_state ex_iv) ex_iv.
 Proof.
   split. { reflexivity. }
@@ -90,7 +86,7 @@ Qed.
 Example C10_ex_run :
   map (fun r => match r with Some (st, out) => Some (pos st, length out, firstn 3 out) | None => None end)
       (toy_trace 7 false ex_iv ex_calls)
-  = [Some (5, 5, [23; 29; 32]%N); Some (0, 43, [56; 176; 241]%N); Some (20, 20, [45; 167; 77]%N)]
+  = [Some (5, 7, [23; 29; 32]%N); Some (0, 43, [56; 176; 241]%N); Some (20, 20, [45; 167; 77]%N)]
   /\ skipn 40 (match nth 1 (toy_trace 7 false ex_iv ex_calls) None with Some (_, o) => o | None => [] end) = [9; 9; 9]%N.
 Proof. vm_compute. split; reflexivity. Qed.
 Example C10_ex_short_dst :
